@@ -12,6 +12,10 @@
    Hypotheses, all visible in the statements:
    - fresh_socket_per_request: only replies to copies of the CURRENT request
      reach its socket (constructor st_recv / accepts: q_id (e_q e) = q_id q);
+     (the harness ties this hypothesis to the code: consecutive requests of one
+     call leave from different source ports - case kind c03.kstamps - and a reply
+     released only when the NEXT request arrives, addressed to the socket of the
+     request it answers, must have no effect - action latereply of c03.hist);
    - client_clock_strict: a reply arrives after its request was stamped, within
      2^32 s (arrival_ok; the exchange may straddle an NTP era rollover), so the
      two stamps differ as Time64 values;
@@ -21,6 +25,15 @@
      arrives after it was stamped (ex_ok, arrival_ok), whatever theta is;
    - for the numeric bound: all stamps within 2^31 s of the client's clock
      reading and durations below 2^61 ns (stamps_near).
+
+   The receive stamp crx is an INPUT of the model, constrained only by arrival_ok.
+   For the IP client it is the kernel's stamp.  The SCION client overwrites it
+   with the end-to-end receive-timestamp option (type 253) of the response packet
+   when there is one; that option is not authenticated, so for SCION arrival_ok is
+   an assumption about packet content (honest forwarders between the stamping
+   element and the client), not about physics.  The harness checks that only the
+   option of the ACCEPTED packet is used (not one of a refused packet, not a
+   hop-by-hop option).
 
    Scope of the bound: t0 (q_ctx) and t3 (crx) are the stamps of the departure
    of the request and of the arrival of the reply (ex_ok: q_ctx + theta <= srx,
